@@ -343,7 +343,13 @@ def handle (c obs : String) : String × Bool × String :=
     | some d =>
       let toks := JsonFrame.jsonLex d
       let model := if kind == "obj" then objObs (JsonFrame.readObject some toks) else arrObs (JsonFrame.readArray some toks)
-      (model, true, "n/a: hand-made document")
+      -- a document whose top-level value is not of the expected kind (array / object) is not such a document: the
+      -- reader must fail, not present it as an empty or one-element collection
+      let firstByte := (d.dropWhile (fun b => b == 0x20 || b == 0x0a || b == 0x0d || b == 0x09)).head?
+      let wantOpen : UInt8 := if kind == "obj" then 0x7b else 0x5b
+      if firstByte != some wantOpen && !(obs.startsWith "err") then
+        (model, false, s!"a document that is not a JSON {if kind == "obj" then "object" else "array"} was read without an error")
+      else (model, true, "n/a: hand-made document")
     | none => ("bad-case", false, "unparsable case")
   | ["lzarr", ws, es] =>
     -- Lazy elements through the streaming decoder, values requested after the array was collected:
